@@ -494,12 +494,31 @@ pub fn gen_case(seed: u64, shard: u64, run: u64, t: &Tier) -> Option<Case> {
             break;
         }
     }
-    let goal = goal?;
+    let mut goal = goal?;
     let step = match w.below(4) {
         0 => w.range_f64(0.5, 2.0f64).to_radians(),
         1 | 2 => w.range_f64(2.0, 8.0f64).to_radians(),
         _ => w.range_f64(8.0, 20.0f64).to_radians(),
     };
+    // sometimes the goal is only a fraction of a planner step (or a step and a bit) away from the
+    // start: this is how the Cartesian planner uses RRT to close small gaps
+    if w.chance(0.12) {
+        for _ in 0..10 {
+            let mut q = start;
+            let mut d: [f64; 6] = std::array::from_fn(|_| w.range_f64(-1.0, 1.0));
+            let n = d.iter().map(|x| x * x).sum::<f64>().sqrt().max(1e-9);
+            let len = step * w.range_f64(0.1, 1.6);
+            for j in 0..6 {
+                d[j] *= len / n;
+                q[j] += d[j];
+            }
+            clampq(&mut q);
+            if free(&q) {
+                goal = q;
+                break;
+            }
+        }
+    }
     let max_try = match w.below(6) {
         0 => w.below(3),
         1 | 2 => w.range_usize(3, 40),
